@@ -89,6 +89,16 @@ pub open spec fn notified_once(w: World, w2: World, c: Call) -> bool {
     &&& forall|j: int| n <= j < m - 1 ==> (#[trigger] w2.calls[j]).func != c.func
 }
 
+/// mint: the calls appended by this invocation start with verify_identity(to) and can_create(to,amount,this) ↦ true
+pub open spec fn mint_gate_calls(w: World, w2: World, to: Address, amount: i128) -> bool {
+    let n = w.calls.len() as int;
+    &&& configured(w)
+    &&& w2.calls.len() >= n + 2
+    &&& w2.calls.subrange(0, n) =~= w.calls
+    &&& w2.calls[n] == c_verify(w, to)
+    &&& w2.calls[n + 1] == c_can_create(w, to, amount)
+}
+
 pub open spec fn validate_post(w: World, from: Address, to: Address, amount: i128) -> World {
     w_call(w_call(w_call(w, c_verify(w, from)), c_verify(w, to)), c_can_transfer(w, from, to, amount))
 }
